@@ -5,6 +5,7 @@ import (
 	"errors"
 	"fmt"
 	"io"
+	"math"
 	"net/http"
 	"runtime/pprof"
 	"strconv"
@@ -55,6 +56,8 @@ func doPanic(kind string, tok int) {
 		_ = s[tok]
 	case "nil":
 		panic(nil)
+	case "bigstring":
+		panic("boom-" + strconv.Itoa(tok) + ":" + Result(tok, 20000))
 	}
 }
 
@@ -293,6 +296,50 @@ func (a *API) ReadAll(ctx context.Context, tok int, r io.Reader) (string, error)
 	return fmt.Sprintf("%d:%08x:%s", len(got), fnv(got), obs), nil
 }
 
+// NotifyRev is a notification whose handler calls back into the client.
+func (a *API) NotifyRev(ctx context.Context, tok int) {
+	t := a.enter(ctx, tok)
+	defer a.leave(t)
+	if rc, ok := jsonrpc.ExtractReverseClient[RevClient](ctx); ok {
+		s, err := rc.Who(ctx, tok)
+		t.mu.Lock()
+		t.Val = s
+		if err != nil {
+			t.Val = "reverr:" + err.Error()
+		}
+		t.mu.Unlock()
+	}
+}
+
+// SubF streams float64 values; element k == Tok.Size (if > 0) is NaN, which
+// encoding/json cannot encode: it is dropped, everything else must arrive.
+func (a *API) SubF(ctx context.Context, tok int) (<-chan float64, error) {
+	ci, err := a.Sub(ctx, tok)
+	if err != nil {
+		return nil, err
+	}
+	t := a.e.Tok(tok)
+	out := make(chan float64)
+	id := simrt.Spawn("subf-adapter")
+	go simrt.RunG(id, func() {
+		defer close(out)
+		for v := range ci {
+			f := float64(v)
+			if t.Size > 0 && v%100000 == t.Size {
+				f = math.NaN()
+			}
+			select {
+			case out <- f:
+			case <-ctx.Done():
+				for range ci {
+				}
+				return
+			}
+		}
+	})
+	return out, nil
+}
+
 // SubElem is the element type of struct-valued streams.
 type SubElem struct {
 	Tok int    `json:"tok"`
@@ -403,6 +450,8 @@ type Proxy struct {
 	SubT           func(ctx context.Context, tok int) (<-chan SubElem, error)
 	Rev            func(ctx context.Context, tok int) (string, error)
 	ReadAll        func(ctx context.Context, tok int, r io.Reader) (string, error)
+	SubF           func(ctx context.Context, tok int) (<-chan float64, error)
+	NotifyRev      func(ctx context.Context, tok int) error `notify:"true"`
 }
 
 type Client struct {
